@@ -96,7 +96,7 @@ def o2_rx(ctx, count, dynamic):
     ctx.reached()
 
 
-def o3_link(ctx, count, pipe, pl, rate, via):
+def o3_link(ctx, count, pipe, pl, rate, via, reenter=False):
     dynamic = pl is None
     from circuitpython_nrf24l01.rf24 import RF24
     clock = fresh_env(ctx)
@@ -135,6 +135,15 @@ def o3_link(ctx, count, pipe, pl, rate, via):
     a.listen = False
     from vsym.core import SBytes
     a.open_tx_pipe(SBytes(target) if ctx.symbolic else bytes(target))
+    if reenter:
+        # the sender also reads on pipe 0 (another address), leaves its `with` block and comes back: the TX address it
+        # established must still be the one payloads go to (sent without requesting an ACK: pipe 0 holds the reading address)
+        other = ctx.bytes("own_rx0", 5)
+        a.open_rx_pipe(0, other)
+        a.__exit__()
+        a.__enter__()
+        a.listen = False
+        ask = 1
     lens = [(3, 32, 1)[i] for i in range(count)]
     bufs = [ctx.bytes("msg%d" % i, ln) for i, ln in enumerate(lens)]
     if via == "send":
@@ -184,6 +193,8 @@ def jobs(tier):
                   and (r == 1 or pl in (None, 1, 32))]
     for c, p, pl, r, v in combos:
         out.append(Job("O3-link", o3_link, dict(count=c, pipe=p, pl=pl, rate=r, via=v), cost=5 * c))
+    for p, pl in ((1, None), (3, 5), (0, 32)):
+        out.append(Job("O3-link-after-context-re-entry", o3_link, dict(count=2, pipe=p, pl=pl, rate=1, via="send", reenter=True), cost=10))
     return out
 
 
